@@ -741,7 +741,8 @@ _IPOW = z3.Function("ipow", z3.RealSort(), z3.IntSort(), z3.RealSort())
 def ipow_axioms():
     x = z3.Real("x!ip")
     c = z3.Int("c!ip")
-    return [z3.ForAll([x], _IPOW(x, 0) == 1), z3.ForAll([x, c], z3.Implies(c >= 0, _IPOW(x, c + 1) == _IPOW(x, c) * x), patterns=[_IPOW(x, c + 1)])]
+    return [z3.ForAll([x], _IPOW(x, 0) == 1), z3.ForAll([x], _IPOW(x, 1) == x),
+            z3.ForAll([x, c], z3.Implies(c >= 0, _IPOW(x, c + 1) == _IPOW(x, c) * x), patterns=[_IPOW(x, c + 1)])]
 
 
 @model("numpy.vander", doc="vander(x, N, increasing=True)[r, c] = x[r]**c (integer power: ipow(x,0)=1, ipow(x,c+1)=ipow(x,c)*x)")
